@@ -6,7 +6,7 @@
     generations per design under varied environments - are validated as traces of Trace_GenHistory.tla
     (every path, content class and mtime class after every operation);
 plus in-process repetition (one evaluation, generator.Generate twice) against the same reference."""
-import json, os, random
+import json, os, random, threading
 import concurrent.futures as cf
 from vlib import core
 from vlib import c09_lab as lab
@@ -155,6 +155,11 @@ def judge(ctx, L, refs, cases, label="trace"):
         report(ctx, L, refs, case, ei)
         rejected += 1
         rest = rest[ci + 1:]
+        if case["kind"] == "fresh-process":     # the other runs of this design are compared with the same reference: one witness is enough
+            skipped = [c for c in rest if c["kind"] == "fresh-process" and c["pair"] == case["pair"]]
+            rest = [c for c in rest if not (c["kind"] == "fresh-process" and c["pair"] == case["pair"])]
+            if skipped:
+                ctx.notes.append("%d further fresh-process runs of %s not judged after one was rejected" % (len(skipped), case["pair"][0]))
         if rejected >= 8:
             ctx.notes.append("stopped judging after 8 rejected cases")
             break
@@ -184,6 +189,20 @@ def report(ctx, L, refs, case, ei):
                               "depth": case.get("depth", 0), "rejected_event": ei, "differences": [list(d) for d in diffs[:20]]})
 
 
+def model_checking(ctx, quick):
+    """(M) all histories of <= MaxOps operations; every deviation must break the invariant it is named for."""
+    ctx.mc("mc/MC_GenHistory", consts={"MaxOps": 4 if quick else 6}, label="MC GenHistory", timeout=3000, heap=None if quick else "24g",
+           workers=8 if quick else "auto")
+    for i, (dev, kind, inv) in enumerate(BITES):
+        if quick and not ctx.selftest and i not in QUICK_BITES:
+            continue
+        cfg = ("SPECIFICATION Spec\nCONSTANTS\n Deviations = {\"%s\"}\n MaxOps = 3\n Nonces = {0, 1}\n KeepHist = FALSE\n Focus = FALSE\n%s %s\n"
+               "CHECK_DEADLOCK FALSE\n" % (dev, kind, inv))
+        r = ctx.mc_expect_violation("mc/MC_GenHistory", cfg_text=cfg, label="dev %s/%s" % (dev, inv), workers=4)
+        if r.violated not in (inv, "temporal"):
+            raise core.Infra("deviation %s violated %s instead of %s" % (dev, r.violated, inv))
+
+
 def run(ctx):
     quick = ctx.quick()
     rng = random.Random(ctx.seed)
@@ -195,18 +214,19 @@ def run(ctx):
                         "go.mod/go.sum of the scratch module are not output (the go tool itself completes them when goa compiles its temporary main)",
                         "the reference of a design (GenFiles/ExFiles and their contents) is its first generation in a fresh module; every other run must agree with it",
                         "empty directories are not observed"]
-    # ---------------------------------------------------------------- (M)
-    ctx.mc("mc/MC_GenHistory", consts={"MaxOps": 4 if quick else 6}, label="MC GenHistory", timeout=3000, heap=None if quick else "24g")
-    for i, (dev, kind, inv) in enumerate(BITES):
-        if quick and not ctx.selftest and i not in QUICK_BITES:
-            continue
-        cfg = ("SPECIFICATION Spec\nCONSTANTS\n Deviations = {\"%s\"}\n MaxOps = 3\n Nonces = {0, 1}\n KeepHist = FALSE\n Focus = FALSE\n%s %s\n"
-               "CHECK_DEADLOCK FALSE\n" % (dev, kind, inv))
-        r = ctx.mc_expect_violation("mc/MC_GenHistory", cfg_text=cfg, label="dev %s/%s" % (dev, inv))
-        if r.violated not in (inv, "temporal"):
-            raise core.Infra("deviation %s violated %s instead of %s" % (dev, r.violated, inv))
+    # ---------------------------------------------------------------- (M) runs beside the replays
+    lock = threading.Lock()
+    subdir = ctx.subdir
+
+    def locked_subdir(name):
+        with lock:
+            return subdir(name)
+    ctx.subdir = locked_subdir
+    pool = cf.ThreadPoolExecutor(max_workers=1)
+    model_side = pool.submit(model_checking, ctx, quick)
     # ---------------------------------------------------------------- (G) histories from TLC
-    g = ctx.gen("mc/MC_GenHistory", "gen/Gen_GenHistory.cfg", consts={"MaxOps": 4 if quick else 5}, label="Gen histories", timeout=1800)
+    g = ctx.gen("mc/MC_GenHistory", "gen/Gen_GenHistory.cfg", consts={"MaxOps": 4 if quick else 5}, label="Gen histories", timeout=1800,
+                workers=8 if quick else "auto")
     vectors = [v for v in g.vectors if not any(o["same"] for o in v["hist"])]     # the command line always starts a new process
     for v in vectors:
         for o in v["hist"]:
@@ -215,7 +235,7 @@ def run(ctx):
     maxlen = max(len(v["hist"]) for v in vectors)
     cands = sorted(core.canon(v["hist"]) for v in vectors
                    if len(v["hist"]) == maxlen and v["hist"][-1]["k"] in ("gen", "example") and nontrivial(v["hist"]))
-    must = MUST[:3] if quick else MUST
+    must = MUST[:4] if quick else MUST
     for m in must:
         if core.canon(m) not in preds:
             raise core.Infra("TLC did not enumerate the mandatory history %s" % core.canon(m))
@@ -288,7 +308,10 @@ def run(ctx):
         elif c["kind"] == "in-process":
             nontriv.add(core.canon(["in-process", c["pair"]]))
         ctx.cov["evaluations"] += len(c["events"]) - 1
-    judge(ctx, L, refs, cases, "trace")
+    order = {"in-process": 0, "tlc-history": 1, "random-history": 2, "fresh-process": 3}
+    judge(ctx, L, refs, sorted(cases, key=lambda c: order[c["kind"]]), "trace")
+    model_side.result()
+    pool.shutdown()
     ctx.cov["distinct_nontrivial"] = len(nontriv)
     ctx.cov["goa_command_lines_run"] = L.goa_runs
     ctx.cov["designs"] = {d: {"gen_files": len(refs[d]["gen"]), "example_files": len(refs[d]["ex"])} for d in designs}
